@@ -33,7 +33,8 @@ For each direction `d` (c2s: client→server, s2c: server→client), relay `d`:
   `select` through `writerErr`/`closing` while no frame was ready);
 * environment state of the connection relay `d` writes to: `stalled` (the peer does not take bytes:
   a connection write blocks) and `wfail` (writes toward it fail, from now on; a blocked one too).
-* `flowMu` of relay `t` is held exactly by a reader in state `pushing t _ _` (derived, `lockHeld`).
+* `fmu` = the owner of relay `d`'s `flowMu` (explicit: the direction of the reader that holds it, `none` =
+  unlocked); `Good` states that it is exactly the reader in state `pushing d _ _`.
 
 Session level: `done` (the channel closed by `stop()`), `closing` (the proxy's channel), the watcher
 goroutine (`select { <-closing: stop(); <-done }`), `returned` (`wg.Wait()` passed, the deferred
@@ -112,6 +113,7 @@ structure Side where
   stalled : Bool := false
   wfail : Bool := false
   dmu : Option Holder := none
+  fmu : Option Dir := none
 deriving DecidableEq, Repr
 
 structure Sys where
@@ -144,8 +146,8 @@ def Rd.isPushing : Rd → Dir → Bool
   | .pushing t _ _, u => t == u
   | _, _ => false
 
-/-- `flowMu` of relay `t` is held. -/
-def lockHeld (s : Sys) (t : Dir) : Bool := s.c.r.isPushing t || s.s.r.isPushing t
+/-- `flowMu` of relay `t` is held (explicit owner). -/
+def lockHeld (s : Sys) (t : Dir) : Bool := (s.side t).fmu.isSome
 
 /-- The reader is inside a connection write under `destMu` of relay `t`. -/
 def Rd.holdsDest : Rd → Dir → Bool
@@ -269,7 +271,12 @@ def step (s : Sys) : Label → Option Sys
   | .acquire d =>
     let x := s.side d
     match x.r with
-    | .lockWait t n wr => if lockHeld s t then none else some (s.setSide d { x with r := .pushing t n wr })
+    | .lockWait t n wr =>
+      if (s.side t).fmu.isNone then
+        let s1 := s.setSide d { x with r := .pushing t n wr }
+        let y := s1.side t
+        some (s1.setSide t { y with fmu := some d })
+      else none
     | _ => none
   | .push d =>
     let x := s.side d
@@ -284,8 +291,14 @@ def step (s : Sys) : Label → Option Sys
   | .release d =>
     let x := s.side d
     match x.r with
-    | .pushing _ 0 true => some (s.setSide d { x with r := .mWait d none })
-    | .pushing _ 0 false => some (s.setSide d { x with r := .selReading })
+    | .pushing t 0 true =>
+      let s1 := s.setSide d { x with r := .mWait d none }
+      let y := s1.side t
+      some (s1.setSide t { y with fmu := none })
+    | .pushing t 0 false =>
+      let s1 := s.setSide d { x with r := .selReading }
+      let y := s1.side t
+      some (s1.setSide t { y with fmu := none })
     | _ => none
   | .mAcquire d =>
     let x := s.side d
